@@ -26,6 +26,26 @@ func ProcessNodeFlags() NodeFlags {
 	return NodeFlags{}
 }
 
+// ProcessChainCfg: how the standard modules of this process' fast-mode worlds are configured.  The driver
+// starts every second shard with VERIF_CHAIN_CFG=1: a chain whose staking bond denomination is not the
+// custom modules' denomination, with a one-hour unbonding time, a 25 % community tax, cheaper transaction
+// bytes and a higher proposal deposit.  Nothing the custom modules promise depends on any of it.
+func ProcessChainCfg() ChainCfg {
+	if os.Getenv("VERIF_CHAIN_CFG") == "1" {
+		return ChainCfg{BondDenom: "uatom", UnbondingS: 3600, CommunityTax: "0.25", TxSizeCostPerByte: 5, GovMinDeposit: 10}
+	}
+	return ChainCfg{}
+}
+
+func processSpec(spec GenesisSpec) GenesisSpec {
+	spec.Chain = ProcessChainCfg()
+	if spec.Chain.BondDenom != "" {
+		// the key accounts hold the bond denomination as well
+		spec.AccExtraCoins = spec.AccExtraCoins.Add(sdk.NewCoin(spec.Chain.BondDenom, sdk.NewIntFromBigInt(pow10[24])))
+	}
+	return spec
+}
+
 var (
 	baseOnce  sync.Once
 	baseWorld *World
@@ -36,7 +56,7 @@ var (
 // deliver state.  Cases branch from it with CacheContext and never write it back.
 func Base() (*World, sdk.Context) {
 	baseOnce.Do(func() {
-		baseWorld = NewWorldWith(BaseSpec(), ProcessNodeFlags())
+		baseWorld = NewWorldWith(processSpec(BaseSpec()), ProcessNodeFlags())
 		baseCtx = baseWorld.OpenFast()
 	})
 	return baseWorld, baseCtx
@@ -60,7 +80,7 @@ func caseNoICA() (*World, sdk.Context) {
 	noICAOnce.Do(func() {
 		spec := BaseSpec()
 		spec.OmitModules = []string{"interchainaccounts"}
-		noICAWorld = NewWorldWith(spec, ProcessNodeFlags())
+		noICAWorld = NewWorldWith(processSpec(spec), ProcessNodeFlags())
 		noICACtx = noICAWorld.OpenFast()
 	})
 	c, _ := noICACtx.CacheContext()
